@@ -112,18 +112,31 @@ def duck_calculator(c):
         static_p_array=numpy.array(c["Pst"]))
 
 
-def observe(c, longitudinal):
-    """run the real contribution class; returns dict of arrays"""
+def observe(c, longitudinal, rng=None):
+    """run the real contribution class; returns dict of arrays.  The five observables are read in a random
+    order and then read AGAIN: an observable must not change because another one was evaluated
+    (they are cached properties of one object) - differences are returned under 'alias'."""
     import cij.core.phonon_contribution.nonshear as NS
     calc = duck_calculator(c)
     e = (numpy.array(c["ei"]), numpy.array(c["ei"] if longitudinal else c["ej"]))
     cls = NS.LongitudinalElasticModulusPhononContribution if longitudinal \
         else NS.OffDiagonalElasticModulusPhononContribution
+    names = dict(zp="zero_point_contribution", th="thermal_contribution", iso="value_isothermal",
+                 gap="isothermal_to_adiabatic", adi="value_adiabatic")
+    order = list(names)
+    if rng is not None:
+        rng.shuffle(order)
     with numpy.errstate(all="ignore"):
         o = cls(calc, e)
-        return dict(zp=numpy.array(o.zero_point_contribution), th=numpy.array(o.thermal_contribution),
-                    iso=numpy.array(o.value_isothermal), gap=numpy.array(o.isothermal_to_adiabatic),
-                    adi=numpy.array(o.value_adiabatic))
+        first = {k: numpy.array(getattr(o, names[k]), copy=True) for k in order}
+        alias = []
+        for k in names:
+            again = numpy.array(getattr(o, names[k]))
+            if not numpy.array_equal(first[k], again, equal_nan=True):
+                alias.append(dict(observable=names[k], read_order=[names[x] for x in order],
+                                  max_change=float(numpy.nanmax(numpy.abs(first[k] - again)))))
+    first["alias"] = alias
+    return first
 
 
 def reload_impl():
